@@ -125,6 +125,19 @@ PROJECTS = [
         "scripts/m1.exps": "import \"x.exps\";\nimport \"y.exps\";\nimport \"z.exps\";\ndef 0 {\n    ~pick();\n    ~x1();\n    ~y2();\n    ~z3();\n    end;\n}\n",
         "scripts/m2.exps": "import \"z.exps\";\nimport \"y.exps\";\nimport \"x.exps\";\ndef 0 {\n    ~z3();\n    ~pick();\n    end;\n}\n",
      }, "lookup": ["inc1", "inc2", "inc3"]},
+    # RELATIVE lookup paths (joined onto the directory of the compiled file by the compiler), names that also exist in the decoy working directory
+    {"files": {
+        "lib/common.exps": "macro common($a) {\n    real_common($a);\n}\nmacro helper() {\n    real_helper();\n}\n",
+        "lib/extra.exps": "import \"common.exps\";\nmacro extra() {\n    ~common(1);\n    e();\n}\n",
+        "main.exps": "import \"common.exps\";\ndef 0 {\n    ~common(5);\n    ~helper();\n    end;\n}\n",
+        "second.exps": "import \"extra.exps\";\nimport \"common.exps\";\ndef 0 {\n    ~extra();\n    ~common(2);\n    hold;\n}\n",
+     }, "lookup": [], "lookup_rel": ["lib"]},
+    {"files": {
+        "inc1/x.exps": "macro pick() {\n    rel_inc1_x();\n}\n",
+        "inc2/x.exps": "macro pick() {\n    rel_inc2_x();\n}\n",
+        "inc2/y.exps": "macro why() {\n    rel_inc2_y();\n}\n",
+        "scripts/r1.exps": "import \"x.exps\";\nimport \"y.exps\";\ndef 0 {\n    ~pick();\n    ~why();\n    end;\n}\n",
+     }, "lookup": [], "lookup_rel": ["../inc1", "../inc2"]},
     # many macros per file, calling each other, called in another order than defined
     {"files": {
         "many/lib.exps": "".join(f"macro m{i}($a) {{\n    op{i}($a, Position<'p{i}', {i}, {i}.5>);\n" + (f"    ~m{i - 3}($a);\n" if i >= 3 and i % 2 else "") + "}\n" for i in range(14)),
@@ -156,7 +169,7 @@ def project_calls() -> list[list[dict]]:
     for pr in PROJECTS:
         calls = []
         for rel in pr["files"]:
-            base = {"kind": "compile", "text": pr["files"][rel], "lookup": [], "project": {"files": pr["files"], "main": rel, "lookup": pr["lookup"], "base": PROJ_BASE}}
+            base = {"kind": "compile", "text": pr["files"][rel], "lookup": [], "project": {"files": pr["files"], "main": rel, "lookup": pr["lookup"], "lookup_rel": pr.get("lookup_rel", []), "base": PROJ_BASE}}
             calls.append(base)
             calls.append(dict(copy.deepcopy(base), macros_only=True))
         out.append(calls)
@@ -187,7 +200,9 @@ def rs_multiline() -> list[dict]:
     s1 = {"s": "line one\nline two"}
     s2 = {"s": "  a\n\nb "}
     ls = {"ls": [["english", "x\ny"], ["german", "z"]]}
+    pm = {"pm": ["mark one", 0, 2, 3, 4]}
     return [
+        rsn([[op(0, "camera_Move", [pm, 1]), op(1, "b", [{"pm": ["m2", 2, 0, 7, 8]}, s1]), op(2, "End")]]),
         rsn([[op(0, "message_Talk", [s1]), op(1, "End")]]),
         rsn([[op(0, "Branch", [{"c": "$X"}, 1, 3]), op(1, "a", [s1, 5]), op(2, "End"), op(3, "b", [s2, ls]), op(4, "End")]]),
         rsn([[op(0, "Switch", [{"c": "$X"}]), op(1, "Case", [1, 3]), op(2, "Jump", [5]), op(3, "c", [s2]), op(4, "Jump", [5]), op(5, "d", [s1]), op(6, "End")],
@@ -261,7 +276,7 @@ def spec_key(call: dict) -> str:
     """the call as an input: without the places it is run at (slot / keep)"""
     c = {k: v for k, v in call.items() if k not in PLACES}
     if c["kind"] == "convert_again":
-        c = {"kind": "decompile", "rs": call["rs"]}
+        c = {"kind": call.get("of", "decompile"), "rs": call["rs"]}
     return json.dumps(c, sort_keys=False)
 
 
@@ -269,7 +284,7 @@ def alone(call: dict) -> dict:
     """the call as run for its reference (dict orders kept: the order of a language string's entries is part of the input)"""
     c = {k: copy.deepcopy(v) for k, v in call.items() if k not in PLACES}
     if c["kind"] == "convert_again":
-        c = {"kind": "decompile", "rs": copy.deepcopy(call["rs"])}
+        c = {"kind": call.get("of", "decompile"), "rs": copy.deepcopy(call["rs"])}
     return c
 
 
@@ -470,8 +485,13 @@ def hist_shared_objects(r: random.Random, pools: Pools, hid: int) -> list[dict]:
     calls: list[dict] = []
     for i in range(r.randint(2, 4)):
         c = r.random()
-        if c < 0.45:
+        if c < 0.30:
             calls.append({"kind": "ssbs_decompile", "rs": copy.deepcopy(src["rs"]), "obj": key})
+        elif c < 0.45:
+            kk = f"{key}_s{i}"
+            calls.append({"kind": "ssbs_decompile", "rs": copy.deepcopy(src["rs"]), "obj": key, "keep": kk})
+            for _ in range(r.randint(1, 2)):
+                calls.append({"kind": "convert_again", "keep": kk, "rs": copy.deepcopy(src["rs"]), "of": "ssbs_decompile"})
         elif c < 0.85:
             calls.append({"kind": "decompile", "rs": copy.deepcopy(src["rs"]), "obj": key})
         else:
@@ -574,6 +594,11 @@ def witness_histories(pools: Pools) -> list[tuple[str, list[dict]]]:
     ro = [c for c in pools.cli_fn if c["fn"] == "decompile.read_ops"]
     if ro:
         w.append(("cli_helpers_directly", [copy.deepcopy(ro[0]), copy.deepcopy(ro[0]), copy.deepcopy(ro[-1])]))
+    if pools.rs_ml:
+        x = pools.rs_ml[0]["rs"]
+        w.append(("ssbscript_decompiler_object_reused", [{"kind": "ssbs_decompile", "rs": copy.deepcopy(x), "keep": "ws"},
+                                                         {"kind": "convert_again", "keep": "ws", "rs": copy.deepcopy(x), "of": "ssbs_decompile"},
+                                                         {"kind": "convert_again", "keep": "ws", "rs": copy.deepcopy(x), "of": "ssbs_decompile"}]))
     rs = rs_switch(1, 1)
     w.append(("convert_twice", [{"kind": "decompile", "rs": rs, "keep": "w1"}, {"kind": "convert_again", "keep": "w1", "rs": rs}]))
     return w
@@ -586,9 +611,22 @@ def observed(call: dict) -> bool:
     return call["kind"] not in ("gc", "churn", "scrub", "reset_antlr", "reset_indent")
 
 
-def run_calls(calls: list[dict], full: Any = (), instrument: bool = False, timeout: float | None = None) -> Any:
+SESSION_CWD: list = [None]     # working directory of the session whose difference is being shrunk / diagnosed
+
+
+def run_calls(calls: list[dict], full: Any = (), instrument: bool = False, timeout: float | None = None, cwd: dict | None = None) -> Any:
     t = timeout if timeout is not None else 30 + 2.0 * len(calls)
-    return fresh.run_fresh(SESSION, {"calls": calls, "instrument": instrument, "full": full if full == "all" else list(full)}, timeout=t)
+    arg = {"calls": calls, "instrument": instrument, "full": full if full == "all" else list(full)}
+    cwd = cwd if cwd is not None else SESSION_CWD[0]
+    if cwd:
+        arg["cwd"] = cwd
+    return fresh.run_fresh(SESSION, arg, timeout=t)
+
+
+def cwd_variants() -> dict[str, dict]:
+    """working directories a process may have: an unrelated directory that holds decoy files under the projects' lookup-path names, and the
+    directory above the generated projects"""
+    return {"decoy": {"decoy": [p for p in PROJECTS if p.get("lookup_rel") or p.get("lookup")], "base": PROJ_BASE}, "base": {"dir": PROJ_BASE}}
 
 
 def differs(calls: list[dict], ref_digest: str) -> bool:
@@ -610,7 +648,7 @@ def shrink(calls: list[dict], ref_digest: str, budget: int = 24) -> list[dict]:
             if evals >= budget or hi <= lo:
                 continue
             trial = cur[:lo] + cur[hi:]
-            keep_keys = {c.get("keep") for c in trial if c["kind"] == "decompile"}
+            keep_keys = {c.get("keep") for c in trial if c["kind"] in ("decompile", "ssbs_decompile")}
             if any(c["kind"] == "convert_again" and c["keep"] not in keep_keys for c in trial):
                 continue
             evals += 1
@@ -619,6 +657,10 @@ def shrink(calls: list[dict], ref_digest: str, budget: int = 24) -> list[dict]:
                 progress = True
                 break
     return cur
+
+
+def digest_of(full: dict) -> str:
+    return json.dumps({k: v for k, v in full.items() if not k.startswith("_")}, sort_keys=True)
 
 
 def field_diff(a: dict, b: dict) -> list[str]:
@@ -790,6 +832,18 @@ def run(run: core.Run) -> int:
             tasks.append((SESSION, {"calls": [alone(pools.ref_calls[k]) for k in ks]}, hs)); owners.append((hs, ks))
         for k in single:
             tasks.append((SESSION, {"calls": [alone(pools.ref_calls[k])]}, hs)); owners.append((hs, [k]))
+    # … and under other working directories (seed 0): every reference call in the decoy directory; project files also from their project root
+    cwds = cwd_variants()
+    n_seed_tasks = len(tasks)
+    order = list(batched)
+    for i in range(0, len(order), 8):
+        ks = order[i:i + 8]
+        tasks.append((SESSION, {"calls": [alone(pools.ref_calls[k]) for k in ks], "cwd": cwds["decoy"]}, "0")); owners.append(("cwd:decoy", ks))
+    for k in keys:
+        c0 = pools.ref_calls[k]
+        if c0.get("project"):
+            tasks.append((SESSION, {"calls": [alone(c0)], "cwd": {"project": c0["project"]}}, "0")); owners.append(("cwd:project-root", [k]))
+    stats["working_directory_runs"] = len(tasks) - n_seed_tasks
     suspects: dict[str, str] = {}
     for (hs, ks), x in zip(owners, fresh.run_fresh_many(tasks, jobs, timeout=180)):
         if fresh.failed(x) or "results" not in x:
@@ -801,6 +855,27 @@ def run(run: core.Run) -> int:
                 suspects.setdefault(k, hs)
     for k, hs in list(suspects.items())[:10]:
         call = alone(pools.ref_calls[k])
+        if hs.startswith("cwd:"):
+            variants = {"default": None, "decoy": cwds["decoy"], "base": cwds["base"]}
+            if call.get("project"):
+                variants["project-root"] = {"project": call["project"]}
+            outs_w = {nm: run_calls([call], full="all", cwd=cw) for nm, cw in variants.items()}
+            digs_w = {nm: (x["results"][0]["digest"] if not fresh.failed(x) and "results" in x else "no-answer") for nm, x in outs_w.items()}
+            if len(set(digs_w.values())) > 1:
+                fulls = [x["results"][0].get("full", {}) for x in outs_w.values() if not fresh.failed(x) and "results" in x]
+                a0 = fulls[0]
+                other = next((f for f in fulls if digest_of(f) != digest_of(a0)), a0)
+                fd = field_diff(a0, other)
+                summ = {nm: (x["results"][0]["summary"].get("error") or "ok") + ":" + x["results"][0]["digest"][:6] for nm, x in outs_w.items() if not fresh.failed(x) and "results" in x}
+                run.violation("result_depends_on_working_directory",
+                              f"{call['kind']} of the same input (same text, file name and lookup paths {call.get('project', {}).get('lookup_rel')}) alone in fresh processes gives different "
+                              f"{'/'.join(fd) or 'results'} depending on the process's working directory: {summ}",
+                              {"history": [call], "observed_call": call, "working_directories": {nm: cw for nm, cw in variants.items()}, "digests": digs_w, "fields": fd,
+                               "how_to_replay": "./check C11 --replay <this file>: runs the call alone in fresh processes started in each of the working directories"})
+            else:
+                run.violation("result_differs_between_fresh_processes", "a call gave another result in a fresh process started in another working directory next to other calls, but not alone",
+                              {"history": [call], "cwd": hs})
+            continue
         alone_runs = fresh.run_fresh_many([(SESSION, {"calls": [call], "full": "all"}, sd) for sd in ("0", "1", "2", "3", "4", "5")], jobs, timeout=120)
         digs = {sd: (x["results"][0]["digest"] if not fresh.failed(x) and "results" in x else "no-answer") for sd, x in zip(("0", "1", "2", "3", "4", "5"), alone_runs)}
         if len(set(digs.values())) > 1:
@@ -853,7 +928,10 @@ def run(run: core.Run) -> int:
     instr_ids = list(range(len(witnesses))) + run.rng.sample(range(len(witnesses), len(sessions)), min(n_instr, len(sessions) - len(witnesses)))
     instr_sessions = [dict(copy.deepcopy(sessions[i]), instrument=True) for i in instr_ids]
     all_sessions = sessions + instr_sessions
-    outs = fresh.run_fresh_many([(SESSION, {"calls": s["calls"], "instrument": s["instrument"]}) for s in all_sessions], jobs, timeout=1200 if not quick else 300)
+    for i, s_ in enumerate(all_sessions):
+        s_["cwd"] = cwds["decoy"] if i % 3 == 1 else None          # a third of the long-lived processes runs in the decoy working directory
+    outs = fresh.run_fresh_many([(SESSION, dict({"calls": s["calls"], "instrument": s["instrument"]}, **({"cwd": s["cwd"]} if s["cwd"] else {}))) for s in all_sessions],
+                                jobs, timeout=1200 if not quick else 300)
 
     n_calls = Counter()
     outcome = Counter()
@@ -903,21 +981,27 @@ def run(run: core.Run) -> int:
                 buckets[shape] += 1
                 sig = json.dumps(shape) + "|" + str(min(buckets[shape], 2))
                 if sig not in found and len(found) < (12 if quick else 40) and not s["instrument"]:
-                    found[sig] = {"calls": s["calls"][: i + 1], "ref": ref, "session": s["name"]}
+                    found[sig] = {"calls": s["calls"][: i + 1], "ref": ref, "session": s["name"], "cwd": s.get("cwd")}
     # shrink + diagnose + report
     for sig, f in found.items():
         calls = f["calls"]
+        SESSION_CWD[0] = f.get("cwd")
         if not differs(calls, f["ref"]["digest"]):
             stats["differences_not_reproduced"] += 1      # allocator-dependent (id reuse): report the unshrunk history
             kind, what, detail = "result_depends_on_history_unreproducible", "a difference seen once did not reappear when the same history was rerun in a new process", {}
             small = calls[-8:]
         else:
             small = shrink(calls, f["ref"]["digest"], 16 if quick else 30)
-            kind, what, detail = diagnose(small, f["ref"])
+            if len(small) == 1 and f.get("cwd"):
+                kind, what, detail = ("result_depends_on_working_directory", f"{small[0]['kind']} alone in a fresh process started in another working directory (a directory with decoy files under the "
+                                      "names of the lookup paths) gives another result than in the default working directory", {"working_directories": {"default": None, "decoy": f["cwd"]}})
+            else:
+                kind, what, detail = diagnose(small, f["ref"])
         stats["kind:" + kind] += 1
         run.violation(kind, what, {"history": small, "observed_call": small[-1], "alone_digest": f["ref"]["digest"], "detail": detail, "session": f["session"],
                                    "how_to_replay": "./check C11 --replay <this file>: runs `history` in one fresh process and the last call alone in another"})
 
+    SESSION_CWD[0] = None
     # trace validation of the instrumented sessions
     tv = Counter()
     seg_stats = Counter()
@@ -1006,6 +1090,17 @@ def replay(run: core.Run, path: str) -> int:
     data = json.load(open(path))
     rp = data["replay"]
     calls = rp["history"]
+    if "working_directories" in rp:
+        digs = {}
+        for nm, cw in rp["working_directories"].items():
+            x = run_calls(calls, cwd=cw)
+            digs[nm] = x["results"][-1]["digest"] if not fresh.failed(x) else "no-answer"
+        cleanup_projects_of(calls)
+        if len(set(digs.values())) > 1:
+            print("VIOLATION-REPLAY", data.get("kind"), digs)
+            return 1
+        print("REPLAY: equal results in every working directory")
+        return 0
     if "hash_seeds" in rp:
         outs = [run_calls(calls, full="all") if sd == "0" else fresh.run_fresh(SESSION, {"calls": calls}, 120, sd) for sd in ("0", "1", "2", "3", "4", "5")]
         digs = [x["results"][-1]["digest"] if not fresh.failed(x) else "no-answer" for x in outs]
